@@ -130,6 +130,47 @@ pub fn utf8(args: &[String]) -> i32 {
             }
         }
     }
+    // position independence: an implementation may process the input in blocks (words, SIMD lanes); the verdict on
+    // ASCII^n . fragment . ASCII^m must still be the verdict of the automaton, wherever the fragment falls relative to
+    // 8/16/32-byte boundaries.  Fragments: EVERY 1- and 2-byte string, and every 3-byte string with a 3/4-byte lead.
+    let mut embedded: u64 = 0;
+    {
+        let mut long = [b'a'; 96];
+        let ns: &[usize] = if tier == "quick" { &[0, 7, 8, 9, 15, 16, 17, 31, 32, 33] } else { &[0, 1, 3, 7, 8, 9, 13, 15, 16, 17, 23, 24, 25, 31, 32, 33, 47, 63, 64, 65] };
+        let ms: &[usize] = if tier == "quick" { &[0, 1, 7, 8] } else { &[0, 1, 2, 3, 6, 7, 8, 9, 15] };
+        let mut check = |frag: &[u8], out: &mut Out, bad: &mut u64, evals: &mut u64| {
+            for &n in ns {
+                for &m in ms {
+                    for b in long.iter_mut() { *b = b'a'; }
+                    long[n..n + frag.len()].copy_from_slice(frag);
+                    let whole = &long[..n + frag.len() + m];
+                    let e = dfa.accepts(whole);
+                    let r = real(whole);
+                    *evals += 1;
+                    if e != r {
+                        report(whole, e, r, out, bad);
+                    }
+                }
+            }
+        };
+        for x in 0..=0xFFu32 {
+            check(&[x as u8], &mut out, &mut bad, &mut evals);
+            embedded += 1;
+        }
+        for x in 0..=0xFFFFu32 {
+            check(&[x as u8, (x >> 8) as u8], &mut out, &mut bad, &mut evals);
+            embedded += 1;
+        }
+        let step = if tier == "quick" { 7 } else { 1 };
+        for lead in 0xE0u32..=0xF7 {
+            let mut x = 0u32;
+            while x <= 0xFFFF {
+                check(&[lead as u8, x as u8, (x >> 8) as u8], &mut out, &mut bad, &mut evals);
+                embedded += 1;
+                x += step;
+            }
+        }
+    }
     // near-valid longer strings: valid text with point mutations / truncations / splices
     let mut rng = Rng::new(seed);
     let n_rand: u64 = if tier == "quick" { 300_000 } else { 6_000_000 };
@@ -177,7 +218,7 @@ pub fn utf8(args: &[String]) -> i32 {
     }
     out.finish();
     println!("{}", json!({"evaluations": evals, "valid_exhaustive": valid, "mismatches": bad, "random": n_rand,
-        "random_invalid": nearvalid_invalid}));
+        "random_invalid": nearvalid_invalid, "embedded_fragments": embedded}));
     0
 }
 
